@@ -8,7 +8,7 @@
 From Coq Require Import String.
 From V Require Import Common.Str Gen.VisitTable.
 Open Scope N_scope.
-Open Scope string_scope.
+Local Open Scope string_scope.
 
 Definition codes (l : list string) : list str := map s2l l.
 
@@ -176,5 +176,6 @@ Qed.
 Definition stopping_rules : list str :=
   map h_rule (filter (fun e => match h_stops e with [] => false | _ => true end) handler_table).
 
-Theorem stopping_rules_are : stopping_rules = codes ["camelcase"; "require-await"].
+Definition expected_stopping_rules : list str := codes ["camelcase"; "require-await"].
+Theorem stopping_rules_are : stopping_rules = expected_stopping_rules.
 Proof. vm_compute. reflexivity. Qed.
